@@ -14,6 +14,7 @@ LEVEL_TEXT = ("zernIndex is compared with Noll's rule enumerated from the defini
               "independent evaluation (Jacobi polynomials, cross-checked against exact rational coefficients) for every grid size 8..65 and "
               "128/256, odd and even, to radial order 20-26; Gram matrices, rms / p2v normalisations, list-vs-count (with rotation), linear "
               "combination, and the gamma matrices against 4th-order finite differences of the generated modes and the analytic gradient. "
+              "Normalisation tags are passed as run-time-built strings and numpy.str_ (selected by value, not identity). "
               "Exploration beyond the enumerated index range.")
 LEVEL_NOTE = "Trusted: scipy.special.eval_jacobi (cross-checked in-run against exact rational radial polynomials), NumPy. The meaning of `rot` is not judged, only its consistent use."
 # normalisation tags as a caller gets them from a configuration file, argv or an array: equal to the literals, but distinct objects
